@@ -21,7 +21,7 @@ MANIFEST = {
     "technique": "Lean 4 proof (generic soundness by induction over layouts + decide on regenerated method bodies) + translator tie + differential correspondence vs real Pos()/End() + source oracles",
 }
 
-RULE = ("every .xgo/.gox/.spx/.gmx/.gsh file of the repo and a seeded sample of .go files (all in thorough) that parse without error, as many layout-mutated "
+RULE = ("every .xgo/.gox/.spx/.gmx/.gsh file of the repo and a seeded sample of .go files (all in thorough) that parse without error, half as many (quick) / six times as many (thorough) layout-mutated "
         "XGo files (blanks / tabs / comments inserted between tokens), n random XGo scripts from a construct-biased generator, and for each node kind 4 (40) "
         "reflection-synthesised trees, half of them with random nils (differential only); non-trivial = distinct tree with >= 5 nodes; every node of every "
         "parsed tree is checked by the oracles")
@@ -33,7 +33,7 @@ def run(ctx):
         "token offsets come from the real XGo scanner (ScanComments)",
     ]
     ctx.build_harness = lambda name, tags="verif": asttables.build_harness_overlay(ctx, name)
-    common.standard(ctx, "GopModel.Props.C17", "c17", 400, 6000, RULE, extract=("walk", "spans"), driver="drv_ast")
+    common.standard(ctx, "GopModel.Props.C17", "c17", 300, 6000, RULE, extract=("walk", "spans"), driver="drv_ast")
 
 
 def replay(ctx, obj):
